@@ -12,6 +12,12 @@ CLAIMED = {
         note="Trusted: CPython ast; signature/argument matching code. Exemption table: ignore_exc, serializer/deserializer, server (one reason each). Two known findings (HashClient.gat/gats positional order).",
         technique="signature, forwarding and configuration conformance between sibling implementations",
     ),
+    "C17": dict(
+        category="proof",
+        text="_retry is evaluated abstractly as a whole function for all 32 filter configurations x (last / not last attempt) = 64 rows with the attempt comparison reduced to linear normal form over 0 <= attempt < attempts; exits, number of delegate calls and sleep counts are compared with the specified decision table; transparency (result and exception identity, BaseException not retried) and the constructor guards (integer half-line attempts <= 0, type-class table of _ensure_tuple_argument, overlap check) are decided the same way.",
+        note="Trusted: CPython ast; path interpreter; the linear-normal-form and table evaluation code. Robust to De Morgan rewrites, helper extraction (inlined one level) and a trailing raise after the loop.",
+        technique="finite abstract evaluation (truth table over comparison/membership atoms) + path rules",
+    ),
     "C18": dict(
         category="proof",
         text="FallbackClient is decided by structure and path rules: writers make one call on caches[0] of their own name with arguments in Client's order and never iterate; readers loop over self.caches in order, call the same-named method once per cache, return at the first hit and consult nothing afterwards; each hit test is evaluated on the delegate's miss value.",
